@@ -57,6 +57,7 @@ type Contract struct {
 	EmitsOK    []string // events appended on normal return only (may mention results)
 	Overflow   bool
 	Pure       bool
+	Prune      bool // drop branches whose path condition the solver refutes quickly
 	Unfold     []string
 	Line       int
 	File       string
@@ -159,7 +160,7 @@ var clauseKW = map[string]bool{
 	"props": true, "requires": true, "ensures": true, "ensures_panic": true, "nopanic": true,
 	"maypanic": true, "modifies": true, "loop": true, "invariant": true, "decreases": true,
 	"inline": true, "trusted": true, "abstract": true, "constructs": true, "ghost": true, "atunlock": true,
-	"overflow": true, "pure": true, "assume": true, "unfold": true, "emits": true, "emits_ok": true,
+	"overflow": true, "pure": true, "prune": true, "assume": true, "unfold": true, "emits": true, "emits_ok": true,
 	"var": true, "hyp": true, "concl": true,
 }
 
@@ -545,6 +546,8 @@ func ParseContracts(pkgPath, path, src string) (*ContractFile, error) {
 				cur.Overflow = true
 			case "pure":
 				cur.Pure = true
+			case "prune":
+				cur.Prune = true
 			case "unfold":
 				cur.Unfold = append(cur.Unfold, rest)
 			case "emits":
